@@ -79,9 +79,11 @@ Removable(nodes) ==        \* _valid_to_replace: outputs of matched nodes other 
      LET v == OutV(k, j) IN
      v = OutV(root, 0) \/ (v \notin gouts /\ \A m \in 1..Len(graph) : (\E i \in 1..Len(graph[m].ins) : graph[m].ins[i] = v) => m \in nodes)
 Functional(C, kind) == \A e1, e2 \in {e \in C : e[1] = kind} : (e1[2] = e2[2] /\ (kind = "var" \/ e1[3] = e2[3])) => e1 = e2
-IsInstanceS(ch, S) == LET C == CorrN(Len(pat), root, ch, S) IN
+\* keep = the rule keeps the matched nodes (remove_nodes=False): the removability side-condition does not apply
+IsInstanceSK(ch, S, keep) == LET C == CorrN(Len(pat), root, ch, S) IN
                   /\ BAD \notin C /\ Functional(C, "node") /\ Functional(C, "var")
-                  /\ Removable({e[4] : e \in {e \in C : e[1] = "node"}})
+                  /\ (keep \/ Removable({e[4] : e \in {e \in C : e[1] = "node"}}))
+IsInstanceS(ch, S) == IsInstanceSK(ch, S, FALSE)
 IsInstance(ch) == IsInstanceS(ch, {})
 BindingsOf(ch) == LET C == CorrN(Len(pat), root, ch, {}) IN
                   [n \in PVarsOf |-> LET S == {e[3] : e \in {e \in C : e[1] = "var" /\ e[2] = n}} IN IF S = {} THEN NONEV ELSE CHOOSE v \in S : TRUE]
@@ -90,6 +92,8 @@ Matches == \E ch \in Choices : IsInstance(ch)
 CommNodes == {p \in 1..Len(pat) : pat[p].op = "C" /\ Len(pat[p].ins) = 2}
 \* commute=True: the matches are those of the pattern under swaps of the operands of commutative operators
 MatchesCommuted == \E S \in SUBSET CommNodes : \E ch \in Choices : IsInstanceS(ch, S)
+MatchesKeep == \E ch \in Choices : IsInstanceSK(ch, {}, TRUE)
+MatchesCommutedKeep == \E S \in SUBSET CommNodes : \E ch \in Choices : IsInstanceSK(ch, S, TRUE)
 DeclBindings == {BindingsOf(ch) : ch \in {ch \in Choices : IsInstance(ch)}}
 
 -----------------------------------------------------------------------------
@@ -167,16 +171,17 @@ Run1(dv) ==
   IF ~r.ok THEN [ok |-> FALSE, b |-> {}, ns |-> <<>>]
   ELSE LET top == r.st[1]
            nodes == {top.ns[i] : i \in 1..Len(top.ns)}
-       IN IF ~Removable(nodes) THEN [ok |-> FALSE, b |-> {}, ns |-> <<>>]
+       IN IF ~dv.keep /\ ~Removable(nodes) THEN [ok |-> FALSE, b |-> {}, ns |-> <<>>]
           ELSE [ok |-> TRUE, b |-> top.b, ns |-> top.ns]
 \* the code commits to the first alternative that matches locally ("or_commits_first"); the design
 \* re-enters later alternatives when the rest of the pattern fails: some forced choice succeeds
 Free == [k \in 1..Len(alts) |-> 0]
-RunWith(devs) ==
-  IF "or_commits_first" \in devs \/ Len(alts) = 0 THEN Run1([d |-> devs, force |-> Free])
-  ELSE LET good == {ch \in Choices : Run1([d |-> devs, force |-> ch]).ok}
+RunWithK(devs, keep) ==
+  IF "or_commits_first" \in devs \/ Len(alts) = 0 THEN Run1([d |-> devs, force |-> Free, keep |-> keep])
+  ELSE LET good == {ch \in Choices : Run1([d |-> devs, force |-> ch, keep |-> keep]).ok}
        IN IF good = {} THEN [ok |-> FALSE, b |-> {}, ns |-> <<>>]
-          ELSE Run1([d |-> devs, force |-> CHOOSE ch \in good : \A c2 \in good : ch[1] <= c2[1]])
+          ELSE Run1([d |-> devs, force |-> CHOOSE ch \in good : \A c2 \in good : ch[1] <= c2[1], keep |-> keep])
+RunWith(devs) == RunWithK(devs, FALSE)
 
 -----------------------------------------------------------------------------
 (* derivation of cases *)
@@ -255,8 +260,11 @@ Evaluate ==
   /\ stage = "mutated"
   /\ LET impl == RunWith(Deviations)
          ideal == RunWith({})
+         implK == RunWithK(Deviations, TRUE)
      IN verdict' = [decl |-> Matches, declB |-> DeclBindings, impl |-> impl, ideal |-> ideal,
-                    why |-> {d \in Deviations : RunWith(Deviations \ {d}) # impl}]
+                    why |-> {d \in Deviations : RunWith(Deviations \ {d}) # impl},
+                    implK |-> implK.ok, idealK |-> RunWithK({}, TRUE).ok,
+                    whyK |-> {d \in Deviations : RunWithK(Deviations \ {d}, TRUE).ok # implK.ok}]
   /\ stage' = "done"
   /\ UNCHANGED <<pat, alts, graph, gouts, root, mut>>
 Next == AddPNode \/ AddOr \/ Instantiate \/ Mutate \/ Evaluate
@@ -266,11 +274,13 @@ BOf(r) == [n \in PVarsOf |-> LET s == Lookup(r.b, n) IN IF s = {} THEN NONEV ELS
 \* the property, for the design and for the implementation model
 Agrees(r) == /\ r.ok <=> verdict.decl
              /\ r.ok => BOf(r) \in verdict.declB
-DesignOK == stage = "done" => Agrees(verdict.ideal)
+DesignOK == stage = "done" => (Agrees(verdict.ideal) /\ (verdict.idealK <=> MatchesKeep))
 \* the committed-first OR is a documented limitation of the code: only a *false negative* is allowed by it
-DeviationsExplain == stage = "done" => (Agrees(verdict.impl) \/ verdict.why # {})
+DeviationsExplain == stage = "done" => /\ (Agrees(verdict.impl) \/ verdict.why # {})
+                                        /\ ((verdict.implK <=> MatchesKeep) \/ verdict.whyK # {})
 Emit == stage = "done" => PrintT(<<"CASE", ToJson([pat |-> pat, alts |-> alts, graph |-> graph, gouts |-> gouts, root |-> root, mut |-> mut,
                                                     decl |-> verdict.decl, declB |-> verdict.declB, declC |-> MatchesCommuted,
+                                                    declK |-> MatchesKeep, declCK |-> MatchesCommutedKeep, implK |-> verdict.implK, whyK |-> verdict.whyK,
                                                     impl |-> [ok |-> verdict.impl.ok, b |-> BOf(verdict.impl), ns |-> verdict.impl.ns],
                                                     why |-> verdict.why])>>)
 SomeMatch == ~(stage = "done" /\ verdict.decl /\ mut # "none")
